@@ -6,7 +6,7 @@ FLAVORS = ['default', 'static', 'noinfo', 'dtostre']
 RULE = ('scenarios on the ASan+UBSan build with exact-size heap buffers, the SCPI_PARSER_VERIF poisoning of the unused input-buffer tail and a 10 s watchdog, in four build configurations '
         '(default, static info heap, no device-dependent info, built-in dtostre): grammar-derived messages, mutated messages and raw byte noise over 0x00-0xFF; chunkings all-at-once, byte-at-a-time, random, '
         'zero-length calls and overrunning chunks; input-buffer sizes 2..64 and 256; queue sizes 1..4; handler scripts applying every parameter reader (incl. array, numeric-list and channel-list readers with capacities 0..4), '
-        'every result writer (incl. floats, arrays in both byte orders, streamed blocks) and the error/introspection calls; complete NUL-terminated lines handed straight to SCPI_Parse. '
+        'every result writer (incl. floats, arrays in both byte orders, streamed blocks) and the error/introspection calls; complete NUL-terminated lines handed straight to SCPI_Parse; remainders that an earlier call left at the start of the buffer (older bytes behind them) executed by a zero-length call. '
         'The oracle is the absence of sanitizer/watchdog events; scenarios whose operations the model covers are also compared with the model. '
         'Non-trivial: a scenario in which at least one handler ran or an error other than overrun was raised; distinct = distinct lines.')
 THOROUGH_EXTRA = 'thorough tier: plus a coverage-guided search (libFuzzer, 240 s x 8 jobs) over the scenario runner; findings are re-run as cases'
